@@ -159,6 +159,13 @@ def diceAfter (base : Nat) (frac : Option (List Nat)) (input : List Char) : Bool
     | 'd' :: c :: _ => (digitOf c base).isSome
     | _ => false)
 
+/-- optional sign of an exponent -/
+def expSign (remaining : List Char) : Bool × List Char :=
+  match remaining with
+  | '-' :: r => (true, r)
+  | '+' :: r => (false, r)
+  | r => (false, r)
+
 /-- exponent, bases up to 10 only -/
 def expPart (base : Nat) (thousands : Char) (input : List Char) : L (Option (Bool × List Nat) × List Char) :=
   if base ≤ 10 then
@@ -168,10 +175,7 @@ def expPart (base : Nat) (thousands : Char) (input : List Char) : L (Option (Boo
         match remaining with
         | c :: _ =>
           if c.isDigit || c == '+' || c == '-' then
-            let (neg, r) := match remaining with
-              | '-' :: r => (true, r)
-              | '+' :: r => (false, r)
-              | r => (false, r)
+            let (neg, r) := expSign remaining
             match parseInteger true base thousands r with
             | .error er => .error er
             | .ok (ds, rest) => .ok (some (neg, ds), rest)
